@@ -22,6 +22,8 @@ pub const FLOOD_BASE: u64 = 1 << 38;
 /// Session index WARP_BASE + k is ordinary session k again - the same plan - run under the clock
 /// seam (`clockwarp.so`: every reading of a clock jumps one hour ahead of the previous one).
 pub const WARP_BASE: u64 = 1 << 37;
+/// Session indices in [PURE_BASE, WARP_BASE) are entry-pure long sessions (see `plan_pure`).
+pub const PURE_BASE: u64 = 1 << 36;
 
 pub const KINDS: &[&str] = &[
     "rekey",
@@ -38,6 +40,7 @@ pub const KINDS: &[&str] = &[
     "restart",
     "name-flood",
     "clock-warp",
+    "entry-pure",
 ];
 
 #[derive(Clone, Debug, Serialize, Deserialize)]
@@ -51,6 +54,9 @@ pub struct SessionParams {
     /// number of sweep sessions the pool is divided among
     #[serde(default)]
     pub sweep_n: u64,
+    /// length of an entry-pure session in units of `max_steps`
+    #[serde(default)]
+    pub pure_factor: u64,
 }
 
 #[derive(Clone, Debug, Default, Serialize, Deserialize)]
@@ -274,12 +280,88 @@ fn plan_flood(p: &SessionParams, pool: &Pool) -> (Plan, SessionMeta) {
     (b.plan, meta)
 }
 
+/// Entry-pure long session: 60 000 (quick) / 200 000 (thorough) requests that all come through ONE entry point - the derive
+/// macro only (k % 3 == 0), the attribute macro on structs / enums only (1), or on impl items only
+/// (2) - over a working set of 64 items, half of them carrying comparison helpers. A host that
+/// compiles a crate using only `#[derive(Ex)]` never calls the other entry point; per-process state
+/// that one entry point maintains and only the other resets (or checks) needs such a run to show.
+fn plan_pure(p: &SessionParams, pool: &Pool) -> (Plan, SessionMeta) {
+    let k = p.idx - PURE_BASE;
+    let seed = derive_seed(p.root, LABEL_SESSION, p.idx);
+    let mut client = Rng::new(derive_seed(seed, 1, 0));
+    let mut sched = Rng::new(derive_seed(seed, 2, 0));
+    let mut keys = Rng::new(derive_seed(seed, 3, 0));
+    let want = k % 3;
+    let fits = |r: &Request| -> Option<Request> {
+        let is_impl = r.item.trim_start().starts_with("impl") || r.item.contains(" impl ");
+        match want {
+            0 => match r.mode {
+                Mode::Derive => Some(r.clone()),
+                Mode::Attr if !is_impl => flipped(r).filter(|f| f.mode == Mode::Derive),
+                _ => None,
+            },
+            1 => match r.mode {
+                Mode::Attr if !is_impl => Some(r.clone()),
+                Mode::Derive => flipped(r).filter(|f| f.mode == Mode::Attr),
+                _ => None,
+            },
+            _ => (r.mode == Mode::Attr && is_impl).then(|| r.clone()),
+        }
+    };
+    let mut ws: Vec<Request> = Vec::new();
+    let mut tries = 0;
+    while ws.len() < 64 && tries < 20_000 {
+        tries += 1;
+        let Some(r) = pool.any_request(&mut client) else { break };
+        // small items (the session is long), three quarters of them with `key = ..` templates
+        if r.item.len() + r.attr.len() > 700 {
+            continue;
+        }
+        let with_templates = r.item.contains("key =");
+        if want != 2 && ws.len() % 4 != 3 && !with_templates {
+            continue;
+        }
+        if let Some(f) = fits(r) {
+            if crate::gen::is_valid_request(&f) {
+                ws.push(f);
+            }
+        }
+    }
+    let mut b = Builder { plan: Plan::default(), index: BTreeMap::new() };
+    let mut fired: BTreeMap<String, usize> = BTreeMap::new();
+    // `max_steps` is the ordinary sessions' upper bound (2 000): 30x in the quick tier; the driver
+    // passes 100x for the thorough tier (`--pure-factor`)
+    let n = if ws.is_empty() { 0 } else { p.max_steps.max(1) * p.pure_factor.max(1) as usize };
+    for i in 0..n {
+        let r = &ws[sched.below(ws.len())];
+        let ri = b.req_idx(r);
+        let policy = if i == 0 { Policy::Keyed { k0: keys.next_u64(), k1: keys.next_u64() } } else { Policy::Keep };
+        *fired.entry("entry-pure".into()).or_default() += 1;
+        b.plan.steps.push(Step { req: ri, thread: "main".into(), policy, kinds: vec!["entry-pure".into(), "main-thread".into()] });
+    }
+    let meta = SessionMeta {
+        seed,
+        enabled: vec![["derive-only", "attr-type-only", "attr-impl-only"][want as usize].to_string()],
+        key_policy: "fixed".into(),
+        workers: 0,
+        working_set: ws.len(),
+        corpus_share_pct: 0,
+        length: b.plan.steps.len(),
+        fired,
+        mutation_ops: BTreeMap::new(),
+    };
+    (b.plan, meta)
+}
+
 pub fn plan_session(p: &SessionParams, pool: &Pool) -> (Plan, SessionMeta) {
     if p.idx >= SWEEP_BASE {
         return plan_sweep(p, pool);
     }
     if p.idx >= FLOOD_BASE && p.idx < MARATHON_BASE {
         return plan_flood(p, pool);
+    }
+    if p.idx >= PURE_BASE && p.idx < WARP_BASE {
+        return plan_pure(p, pool);
     }
     if p.idx >= WARP_BASE && p.idx < FLOOD_BASE {
         let mut q = p.clone();
